@@ -30,11 +30,13 @@ import (
 	"strings"
 	"sync"
 	"sync/atomic"
+	"syscall"
 	"testing"
 	"time"
 
 	"github.com/cnotch/ipchub/av/format/rtp"
 	"github.com/cnotch/ipchub/media"
+	"github.com/cnotch/ipchub/service/rtsp"
 	"pgregory.net/rapid"
 	"verif/harness/lib/evid"
 	"verif/harness/lib/mediah"
@@ -215,6 +217,7 @@ type plan struct {
 	End         string `json:"end"` // close | halfclose | reset (TCP RST)
 	CheckFrames bool   `json:"check_frames"`
 	WSPData     bool   `json:"wsp_data_channel,omitempty"` // wsp: also open the data channel
+	Window      bool   `json:"window_at_play"`             // tcp/ws: publish inside the window "player attached, PLAY not yet answered"
 }
 
 var muxKnown = map[string]bool{"OPTIONS": true, "DESCRIBE": true, "ANNOUNCE": true, "SETUP": true, "PLAY": true, "PAUSE": true,
@@ -372,6 +375,7 @@ func genPlan(t *rapid.T, transport string) *plan {
 	}
 	p.End = rapid.SampledFrom([]string{"close", "close", "halfclose", "reset", "reset"}).Draw(t, "end")
 	p.CheckFrames = rapid.IntRange(0, 3).Draw(t, "checkFrames") == 0
+	p.Window = transport != "wsp" && rapid.Bool().Draw(t, "windowAtPlay")
 	return p
 }
 
@@ -396,6 +400,7 @@ type outcome struct {
 	refused, n455                    int
 	framesSeen                       int
 	closedByTeardown                 bool
+	windows, udpSeen                 int
 	consumePanics                    int
 }
 
@@ -539,24 +544,68 @@ func (w *world) runPlan(p *plan) (out outcome, rep *report, fail *failure, err e
 			u.Close()
 		}
 	}
+	var udps []*net.UDPConn
 	if udp == nil {
 		evid.Class("machinery: no UDP socket, early media on UDP not observed in this case")
 	} else {
 		defer udp.Close()
+		udps = append(udps, udp)
+		// the audio track announces the next pair (port+2): observe it too when it is free
+		if u2, e := net.ListenUDP("udp4", &net.UDPAddr{IP: net.IPv4(127, 0, 0, 1), Port: udpPort + 2}); e == nil {
+			defer u2.Close()
+			udps = append(udps, u2)
+		}
 	}
 	udpGot := func() int {
 		n := 0
-		if udp == nil {
-			return 0
-		}
 		buf := make([]byte, 2048)
-		for {
-			udp.SetReadDeadline(time.Now())
-			if _, _, e := udp.ReadFromUDP(buf); e != nil {
-				return n
+		for _, u := range udps {
+			// non-blocking drain (a read deadline that has already passed would make Go
+			// return a timeout without even looking at the socket)
+			rc, e := u.SyscallConn()
+			if e != nil {
+				continue
 			}
-			n++
+			for more := true; more; {
+				more = false
+				rc.Read(func(fd uintptr) bool {
+					if k, _, e := syscall.Recvfrom(int(fd), buf, syscall.MSG_DONTWAIT); e == nil && k >= 0 {
+						more = true
+						n++
+					}
+					return true
+				})
+			}
 		}
+		return n
+	}
+
+	// The window "player attached to its stream, 200 to PLAY not yet written" is owned
+	// through the schedule point play.before-answer (build tag verif): the callback runs in
+	// the session's goroutine right before the answer is written, publishes a packet on both
+	// live streams and gives it a moment to be delivered. On a correct server the delivery
+	// is held back until the answer is out, so nothing may have reached the UDP client port
+	// when the callback returns (for TCP / ws the frame would sit in front of the 200 in the
+	// byte stream, which the reader below flags). Only what actually arrived is judged.
+	var earlyUDP, windows int32
+	if rc, ok := c.(*rtspc.Client); ok && p.Window {
+		mine := rc.LocalAddr().String()
+		rtsp.VerifSetSched(func(point string, obj interface{}) {
+			if point != "play.before-answer" || rtsp.VerifSessionAddr(obj) != mine {
+				return
+			}
+			atomic.AddInt32(&windows, 1)
+			w.pump(1)
+			deadline := time.Now().Add(8 * time.Millisecond)
+			for time.Now().Before(deadline) {
+				if n := udpGot(); n > 0 {
+					atomic.AddInt32(&earlyUDP, int32(n))
+					return
+				}
+				time.Sleep(100 * time.Microsecond)
+			}
+		})
+		defer rtsp.VerifSetSched(nil)
 	}
 
 	session := ""
@@ -641,7 +690,7 @@ func (w *world) runPlan(p *plan) (out outcome, rep *report, fail *failure, err e
 		// consumer attached too early shows up as a frame in front of the response (stimulus
 		// only: the verdict is the order of items in the byte stream)
 		stopPump := func() {}
-		if s.Method == "PLAY" || s.Method == "SETUP" {
+		if (s.Method == "PLAY" || s.Method == "SETUP") && !(p.Window && p.Transport != "wsp") {
 			stop, done := make(chan struct{}), make(chan struct{})
 			go func() {
 				defer close(done)
@@ -734,6 +783,9 @@ func (w *world) runPlan(p *plan) (out outcome, rep *report, fail *failure, err e
 			}
 		}
 		stopPump()
+		if n := atomic.LoadInt32(&earlyUDP); n > 0 {
+			return fin(bad("media-before-play", "step %d (%s): %d RTP datagrams reached the client's UDP port while the player was attached but the answer to PLAY had not been written yet", i, ex.Req, n))
+		}
 		if len(got) != 1 {
 			return fin(bad("response-count", "step %d (%s, CSeq %s): %d responses before the probe's response, want exactly 1", i, ex.Req, reqCSeq, len(got)))
 		}
@@ -825,6 +877,10 @@ func (w *world) runPlan(p *plan) (out outcome, rep *report, fail *failure, err e
 		}
 	}
 
+	out.windows = int(atomic.LoadInt32(&windows))
+	if playOK {
+		out.udpSeen = udpGot() // evidence that the UDP observation is not vacuous
+	}
 	// disconnect: everything the session held is released
 	if alive {
 		if p.End == "halfclose" && p.Transport == "tcp" {
@@ -921,6 +977,18 @@ func record(p *plan, out outcome) {
 	}
 	if out.closedByTeardown {
 		evid.Class("ended by TEARDOWN")
+	}
+	if out.udpSeen > 0 {
+		evid.Class("UDP datagrams seen on the client port after PLAY")
+	}
+	if out.windows > 0 {
+		w := "tcp/ws"
+		for _, st := range p.Steps {
+			if st.Method == "SETUP" && st.Trans == "udp" {
+				w = "udp"
+			}
+		}
+		evid.Class("window owned: packet published between attach and PLAY answer (" + w + " in plan)")
 	}
 	if out.consumePanics > 0 {
 		evid.Class("observation: recovered nil-conn panic in the delivery goroutine at session end")
